@@ -231,6 +231,9 @@ pub fn run_forked(timeout_s: u32, f: &dyn Fn() -> Report) -> Outcome {
 
 /// One generator family of a check.
 pub struct Family {
+    /// "" = the ordinary build; "da" = run by the build of the harness in which circ is compiled
+    /// with debug assertions on (its panics are then part of what is observed)
+    pub variant: &'static str,
     pub name: &'static str,
     pub strategy: fn(Tier) -> BoxedStrategy<Value>,
     /// total number of cases over all shards
@@ -470,7 +473,11 @@ pub fn run_shard(
 ) -> ShardOut {
     let mut out = ShardOut::default();
     let max_shrink: u32 = tier.pick(400, 1500);
+    let my_variant = std::env::var("VCHECK_VARIANT").unwrap_or_default();
     'fam: for (fi, fam) in def.families.iter().enumerate() {
+        if fam.variant != my_variant {
+            continue;
+        }
         let total = (fam.cases)(tier);
         let mine = total / nshards as u64 + if (shard as u64) < total % nshards as u64 { 1 } else { 0 };
         if mine == 0 {
@@ -627,9 +634,29 @@ pub fn run_check(def: &CheckDef, tier: Tier, seed: u64) -> i32 {
     let tmpdir = format!("{}/shards-tmp/{}-{}", std::env::var("VCHECK_TMP").unwrap_or_else(|_| "/verif/harness/target".to_string()), def.id, std::process::id());
     let _ = std::fs::create_dir_all(&tmpdir);
     let mut children = Vec::new();
-    for sh in 0..nshards {
-        let outp = format!("{}/shard{}.json", tmpdir, sh);
-        let ch = std::process::Command::new(&exe)
+    let mut variants: Vec<&'static str> = def.families.iter().map(|f| f.variant).collect();
+    variants.sort();
+    variants.dedup();
+    let mut launch: Vec<(std::path::PathBuf, &'static str, usize)> = Vec::new();
+    for v in &variants {
+        let vexe = if v.is_empty() {
+            exe.clone()
+        } else {
+            let p = exe.to_string_lossy().replace("/release/vcheck", &format!("/{}/release/vcheck", v));
+            std::path::PathBuf::from(p)
+        };
+        if !vexe.exists() {
+            eprintln!("missing harness build for variant {:?}: {:?}", v, vexe);
+            return 2;
+        }
+        for sh in 0..nshards {
+            launch.push((vexe.clone(), v, sh));
+        }
+    }
+    for (vexe, variant, sh) in launch {
+        let outp = format!("{}/shard{}{}.json", tmpdir, variant, sh);
+        let ch = std::process::Command::new(&vexe)
+            .env("VCHECK_VARIANT", variant)
             .args([
                 "shard",
                 def.id,
